@@ -1033,6 +1033,11 @@ func (p *Core) closeResources(newConf *conf.Conf) {
 		newConf.RTSPServerCert != currentConf.RTSPServerCert ||
 		newConf.RTSPServerKey != currentConf.RTSPServerKey ||
 		newConf.RTSPAddress != currentConf.RTSPAddress ||
+		newConf.SRTPAddress != currentConf.SRTPAddress ||
+		newConf.SRTCPAddress != currentConf.SRTCPAddress ||
+		newConf.MulticastIPRange != currentConf.MulticastIPRange ||
+		newConf.MulticastSRTPPort != currentConf.MulticastSRTPPort ||
+		newConf.MulticastSRTCPPort != currentConf.MulticastSRTCPPort ||
 		!reflect.DeepEqual(newConf.RTSPTransports, currentConf.RTSPTransports) ||
 		!reflect.DeepEqual(newConf.RTSPTrustedProxies, currentConf.RTSPTrustedProxies) ||
 		newConf.RunOnConnect != currentConf.RunOnConnect ||
